@@ -277,6 +277,12 @@ func patternNames(spaces, locals []string, withBare bool) []xml.Name {
 	return out
 }
 
+// ownNames are the payload pattern names that match a stanza element itself:
+// its exact name, its local name only, its content namespace only.
+func ownNames(kind, ns string) []xml.Name {
+	return []xml.Name{{Space: ns, Local: kind}, {Local: kind}, {Space: ns}}
+}
+
 func genPat(r *rand.Rand, kind, typ string, n xml.Name) Pat {
 	return Pat{Kind: kind, Type: typ, Space: n.Space, Local: n.Local, Read: readAmount[r.Intn(len(readAmount))], Ack: r.Intn(3) == 0}
 }
@@ -323,7 +329,12 @@ func genStanza(r *rand.Rand, kind, typ, ns string, id int) *El {
 		nk = 1
 	}
 	for i := 0; i < nk; i++ {
-		e.Kids = append(e.Kids, genChild(r, 0))
+		k := genChild(r, 0)
+		if r.Intn(25) == 0 {
+			// a child that has the stanza's own name (a nested stanza)
+			k.Space, k.Local = ns, kind
+		}
+		e.Kids = append(e.Kids, k)
 	}
 	return e
 }
@@ -357,6 +368,18 @@ func genCase(r *rand.Rand) *Case {
 			if r.Intn(5) < dens {
 				add(genPat(r, f.k, f.t, n))
 			}
+		}
+	}
+	// payload patterns that carry the stanza's own element name, content
+	// namespace or both: an empty stanza must still go to the bare type wildcard
+	// only, and children are matched by their own names only
+	for _, f := range focus {
+		if r.Intn(4) != 0 {
+			continue
+		}
+		own := ownNames(f.k, elemNS)
+		for _, i := range r.Perm(len(own))[:1+r.Intn(len(own))] {
+			add(genPat(r, f.k, f.t, own[i]))
 		}
 	}
 	// noise: the same names under other kinds and types, which must be ignored
